@@ -120,6 +120,15 @@ class Problem:
                 B = (B + B.conj().transpose(axes=(1, 0))) / 2
             self.B = B * scale
         self.shift = rng.choice((0, 0, 1, -2)) * scale
+        # a third kind of term that COUPLES blocks: a two-leg operator W on legs 0, 1 (zero charge).  A.x and x.B map every block of x to itself, so that a start vector with
+        # few stored blocks never leaves them; with W the Krylov space of such a vector is larger than the vector's storage.  (drawn from a separate generator: the
+        # problems of the other seeds, canonical reproducers included, stay what they were)
+        self.W = None
+        if nlegs >= 2 and random.Random(seed * 7 + 1).random() < 0.35:
+            W = yastn.rand(config=cfg, legs=[legs[0], legs[1], legs[0].conj(), legs[1].conj()], n=cfg.sym.zero(), dtype=dt)
+            if self.hermitian:
+                W = (W + W.conj().transpose(axes=(2, 3, 0, 1))) / 2
+            self.W = W * (scale / max(1.0, float(W.norm()) / 3))
         self.nl = nlegs
         self.legd = dict(enumerate(legs))
         zd = z.to_numpy(legs=self.legd)
@@ -137,7 +146,8 @@ class Problem:
         if not self.cplx:
             self.M = np.real(self.M)
         self.normM = float(np.linalg.norm(self.M, 2))
-        self.what = '%s legs=%d dim=%d %s %s two=%s scale=%s seed=%d' % (sym, nlegs, self.dim, 'herm' if self.hermitian else 'nonherm', 'cplx' if self.cplx else 'real', self.two, scale, seed)
+        self.what = '%s legs=%d dim=%d %s %s two=%s%s scale=%s seed=%d' % (sym, nlegs, self.dim, 'herm' if self.hermitian else 'nonherm', 'cplx' if self.cplx else 'real', self.two,
+                                                                        ' pair' if self.W is not None else '', scale, seed)
 
     def leg(self, rng):
         import yastn
@@ -168,6 +178,8 @@ class Problem:
             y = y + yastn.tensordot(x, self.B, axes=(x.ndim - 1, 0))
         if self.shift:
             y = y + self.shift * x
+        if self.W is not None:
+            y = y + yastn.tensordot(self.W, x, axes=((2, 3), (0, 1)))
         return y
 
     def dense(self, x):
@@ -439,9 +451,11 @@ def run_inner(args):
         # the implementation declares breakdown at an absolute 1e-13; claim only when the dense Arnoldi agrees unambiguously
         ambiguous = resid[-1] >= 1e-14 or any(r < 1e-7 * sc0 for r in resid[:-1])
         ncv = rng.choice((1, 2, 3, 5, 8, 12, 20, 40))
+        if kind == 'sparse' and v.size < reach and rng.random() < 0.7:
+            ncv = rng.choice((20, 40, 40))       # a start vector that stores fewer numbers than its Krylov space has dimensions, and a Krylov size that spans the space
         k = rng.randint(1, min(3, ncv, reach))
         which = rng.choice(('SR', 'LR', 'LM')) if not P.hermitian else rng.choice(('SR', 'SR', 'LR'))
-        what = 'eigs %s start=%s ncv=%d k=%d which=%s reach=%d rep=%d' % (P.what, kind, ncv, k, which, reach, rep)
+        what = 'eigs %s start=%s(size %d) ncv=%d k=%d which=%s reach=%d rep=%d' % (P.what, kind, v.size, ncv, k, which, reach, rep)
         rec = KRec()
         rec.install()
         try:
